@@ -36,7 +36,11 @@ func CallName(c *ssa.CallCommon) string {
 		return "builtin." + v.Name()
 	}
 	if f := c.StaticCallee(); f != nil {
-		// closures: name of the literal
+		// an instance of a generic function goes by the name of the generic (slices.Reverse, not
+		// slices.Reverse[[]any,any]); closures: name of the literal
+		if o := f.Origin(); o != nil {
+			f = o
+		}
 		return Short(f.String())
 	}
 	return ""
